@@ -29,7 +29,9 @@ enum Own { U(Observable<T>), S(SharedObservable<T>), UA(Observable<T, AsyncLock>
 enum SubK { S(Subscriber<T>), A(Subscriber<T, AsyncLock>) }
 enum WeakK { S(WeakObservable<T>), A(WeakObservable<T, AsyncLock>) }
 
-struct SubH { k: SubK, flag: Arc<Flag>, waker: Waker, fresh: bool, parked: bool }
+struct SubH { k: SubK, flag: Arc<Flag>, waker: Waker, fresh: bool, parked: bool,
+              /// its last poll used the shared task waker, answered Pending, and the task was not woken since
+              tparked: bool }
 
 #[derive(Clone, Debug)]
 pub enum WOp { Set(u64), Sne(u64), Shne(u64), Take, Upd(usize), UpdIf(usize, bool) }
@@ -50,6 +52,9 @@ pub struct OW {
     cur: u64,
     open: bool,
     kf: bool,
+    /// one waker shared by several subscribers (a task polling them all, as `join` / `select` / a merged stream do)
+    task_flag: Arc<Flag>,
+    task_waker: Waker,
 }
 
 fn hash_of(v: u64) -> u64 { v / 8 }
@@ -57,7 +62,8 @@ fn hash_of(v: u64) -> u64 { v / 8 }
 impl OW {
     pub fn new(sink: &mut Sink, unique: bool, asyncf: bool, v: u64) -> OW {
         sink.line(&format!("onew {} {} {v}", if unique { "unique" } else { "shared" }, if asyncf { "async" } else { "sync" }), "ok");
-        let mut w = OW { asyncf, unique: None, clones: vec![], subs: vec![], weaks: vec![], cur: v, open: true, kf: false };
+        let (task_flag, task_waker) = flag_waker();
+        let mut w = OW { asyncf, unique: None, clones: vec![], subs: vec![], weaks: vec![], cur: v, open: true, kf: false, task_flag, task_waker };
         match (unique, asyncf) {
             (true, false) => w.unique = Some(Own::U(Observable::new(T(v)))),
             (true, true) => w.unique = Some(Own::UA(Observable::new_async(T(v)))),
@@ -81,6 +87,7 @@ impl OW {
         for (i, s) in self.subs.iter_mut().enumerate() {
             if let Some(s) = s { if s.flag.0.swap(false, Ordering::SeqCst) { ids.push(i as u64); s.parked = false; } }
         }
+        if self.task_flag.0.swap(false, Ordering::SeqCst) { ids.push(900); for s in self.subs.iter_mut().flatten() { s.tparked = false; } }
         format!(" woke={}", fmt_list(&ids))
     }
     /// a notifying update / the close happened: every parked subscriber must have been woken (C02)
@@ -88,6 +95,9 @@ impl OW {
         for (i, s) in self.subs.iter().enumerate() {
             if let Some(s) = s { if s.parked && !s.flag.0.load(Ordering::SeqCst) {
                 sink.oracle_fail(if self.asyncf { "C02,C16" } else { "C02" }, &format!("subscriber {i} was Pending and is not woken by {why}"));
+            } }
+            if let Some(s) = s { if s.tparked && !self.task_flag.0.load(Ordering::SeqCst) {
+                sink.oracle_fail(if self.asyncf { "C02,C16" } else { "C02" }, &format!("subscriber {i} was Pending when polled by the task that polls several subscribers with one waker, and the task is not woken by {why}"));
             } }
         }
     }
@@ -178,27 +188,32 @@ impl OW {
             Own::SA(o) => SubK::A(if reset { o.subscribe_reset() } else { now(o.subscribe()).expect("subscribe blocked") }),
         };
         let (flag, waker) = flag_waker();
-        self.subs.push(Some(SubH { k, flag, waker, fresh: reset, parked: false }));
+        self.subs.push(Some(SubH { k, flag, waker, fresh: reset, parked: false, tparked: false }));
         let id = self.subs.len() - 1;
         sink.stat("sub");
         sink.line(&format!("{} {h}", if reset { "osubr" } else { "osub" }), &id.to_string());
         id
     }
 
-    pub fn poll(&mut self, sink: &mut Sink, i: usize) {
+    pub fn poll(&mut self, sink: &mut Sink, i: usize) { self.poll_with(sink, i, false) }
+    /// `task`: poll with the waker shared by all subscribers polled this way
+    pub fn poll_with(&mut self, sink: &mut Sink, i: usize, task: bool) {
         let (cur, open) = (self.cur, self.open);
+        let tw = self.task_waker.clone();
+        let tflag = self.task_flag.0.load(Ordering::SeqCst);
         let s = self.subs[i].as_mut().unwrap();
-        let mut cx = Context::from_waker(&s.waker);
+        let mut cx = Context::from_waker(if task { &tw } else { &s.waker });
         let r = match &mut s.k {
             SubK::S(sb) => Pin::new(sb).poll_next(&mut cx),
             SubK::A(sb) => Pin::new(sb).poll_next(&mut cx),
         };
         let shown = match &r { Poll::Ready(Some(t)) => format!("Ready({})", t.0), Poll::Ready(None) => "End".into(), Poll::Pending => "Pending".into() };
         let expect = if !open { "End".to_string() } else if s.fresh { format!("Ready({cur})") } else { "Pending".into() };
-        let was_parked = s.parked && !s.flag.0.load(Ordering::SeqCst);
+        let was_parked = (s.parked && !s.flag.0.load(Ordering::SeqCst)) || (s.tparked && !tflag);
         match r {
+            Poll::Pending if task => { s.tparked = true; }
             Poll::Pending => { s.parked = true; s.flag.0.store(false, Ordering::SeqCst); }
-            _ => { s.parked = false; s.fresh = false; }
+            _ => { s.parked = false; s.tparked = false; s.fresh = false; }
         }
         let p = if self.asyncf { "C16," } else { "" };
         if shown != expect {
@@ -208,8 +223,8 @@ impl OW {
         if was_parked && shown != "Pending" {
             sink.oracle_fail(&format!("{p}C02"), &format!("subscriber {i} was Pending, was not woken, and a further poll answered {shown}"));
         }
-        sink.stat("poll");
-        sink.line(&format!("opoll {i}"), &shown);
+        sink.stat(if task { "pollt" } else { "poll" });
+        sink.line(&format!("{} {i}", if task { "opollt" } else { "opoll" }), &shown);
     }
 
     pub fn next_now(&mut self, sink: &mut Sink, i: usize) {
@@ -236,6 +251,7 @@ impl OW {
         match &mut s.k { SubK::S(sb) => sb.reset(), SubK::A(sb) => sb.reset() }
         s.fresh = true;
         s.parked = false; // the subscriber made itself ready: no wake is owed
+        s.tparked = false;
         sink.stat("reset");
         sink.line(&format!("oreset {i}"), "ok");
     }
@@ -247,7 +263,7 @@ impl OW {
         };
         let fresh = if reset { true } else { s.fresh };
         let (flag, waker) = flag_waker();
-        self.subs.push(Some(SubH { k, flag, waker, fresh, parked: false }));
+        self.subs.push(Some(SubH { k, flag, waker, fresh, parked: false, tparked: false }));
         sink.stat("sclone");
         sink.line(&format!("{} {i}", if reset { "ocloner" } else { "oclone" }), &(self.subs.len() - 1).to_string());
     }
@@ -335,7 +351,7 @@ impl OW {
 }
 
 #[derive(Clone, Debug)]
-enum A { W(WOp, bool), Sub(bool), Poll(usize), Next(usize), Get(usize), Reset(usize), SClone(usize, bool), SDrop(usize),
+enum A { W(WOp, bool), Sub(bool), Poll(usize), PollT(usize), Next(usize), Get(usize), Reset(usize), SClone(usize, bool), SDrop(usize),
          HClone, HDrop(usize), Down, Up(usize), DropW(usize), Into, Counts, HGet }
 
 fn apply(w: &mut OW, sink: &mut Sink, a: &A) -> bool {
@@ -347,6 +363,7 @@ fn apply(w: &mut OW, sink: &mut Sink, a: &A) -> bool {
         A::W(op, g) => { let Some(h) = owners.last().copied() else { return false }; if *g && w.is_unique() { return false; } w.write(sink, h, op, *g) }
         A::Sub(r) => { let Some(h) = h0 else { return false }; w.subscribe(sink, h, *r); }
         A::Poll(i) => { if !subs.contains(i) { return false; } w.poll(sink, *i) }
+        A::PollT(i) => { if !subs.contains(i) { return false; } w.poll_with(sink, *i, true) }
         A::Next(i) => { if !subs.contains(i) { return false; } w.next_now(sink, *i) }
         A::Get(i) => { if !subs.contains(i) { return false; } w.get(sink, *i) }
         A::Reset(i) => { if !subs.contains(i) { return false; } w.reset(sink, *i) }
@@ -368,7 +385,7 @@ fn alphabet(full: bool) -> Vec<A> {
     let mut v = vec![
         A::W(WOp::Set(9), false), A::W(WOp::Sne(9), false), A::W(WOp::Sne(17), false), A::W(WOp::Shne(10), false), A::W(WOp::Shne(3), false),
         A::W(WOp::UpdIf(0, true), false), A::W(WOp::UpdIf(0, false), false),
-        A::Sub(false), A::Sub(true), A::Poll(0), A::Poll(1), A::Next(0), A::Reset(0), A::SClone(0, false), A::SClone(0, true), A::SDrop(0),
+        A::Sub(false), A::Sub(true), A::Poll(0), A::Poll(1), A::PollT(0), A::PollT(1), A::Next(0), A::Reset(0), A::SClone(0, false), A::SClone(0, true), A::SDrop(0),
         A::HClone, A::HDrop(0), A::HDrop(1), A::Down, A::Up(0), A::Into,
     ];
     if full {
@@ -413,6 +430,17 @@ pub fn run(args: &Args, sink: &mut Sink, asyncf: bool) {
             }
         }
     }
+    // one task polling several subscribers with one waker: every sequence of length 5 (thorough 6) over a small alphabet
+    let talpha = [A::PollT(0), A::PollT(1), A::Poll(1), A::W(WOp::Set(9), false), A::W(WOp::Sne(1), false), A::Sub(true), A::HDrop(0)];
+    let tdepth = if thorough { 6 } else { 5 };
+    for unique in [true, false] {
+        let k = talpha.len();
+        for code in 0..k.pow(tdepth as u32) {
+            let seq: Vec<A> = (0..tdepth).map(|d| talpha[(code / k.pow(d as u32)) % k].clone()).collect();
+            n += 1;
+            run_case(sink, &format!("T{n}"), unique, asyncf, &seq);
+        }
+    }
     sink.stat_n("exhaustive", n);
     // known finding D8: async flavour, counts with live subscribers
     if asyncf {
@@ -436,7 +464,7 @@ pub fn run(args: &Args, sink: &mut Sink, asyncf: bool) {
                 8 => A::W(WOp::Upd(r.below(3)), r.chance(1, 4)),
                 9..=10 => A::W(WOp::UpdIf(r.below(3), r.chance(1, 2)), r.chance(1, 4)),
                 11 => A::Sub(r.chance(1, 3)),
-                12..=16 => A::Poll(i),
+                12..=15 => A::Poll(i), 16 => A::PollT(i),
                 17 => A::Next(i), 18 => A::Get(i), 19 => A::Reset(i), 20 => A::SClone(i, r.chance(1, 2)), 21 => A::SDrop(i),
                 22 => A::HClone, 23 => A::HDrop(r.below(3)), 24 => A::Down, 25 => A::Up(r.below(2)), 26 => A::DropW(r.below(2)),
                 27 => A::Into, 28 => A::Counts, _ => A::HGet,
@@ -451,7 +479,7 @@ pub fn run(args: &Args, sink: &mut Sink, asyncf: bool) {
 // async-lock flavour with guards held across other calls, pending futures, cancellation (C16)
 use eyeball::ObservableReadGuard;
 
-enum FOut { Res(String), RG(ObservableReadGuard<'static, T, AsyncLock>), WG(ObservableWriteGuard<'static, T, AsyncLock>), RGV(ObservableReadGuard<'static, T, AsyncLock>) }
+enum FOut { Sne(Option<u64>, u64), Res(String), RG(ObservableReadGuard<'static, T, AsyncLock>), WG(ObservableWriteGuard<'static, T, AsyncLock>), RGV(ObservableReadGuard<'static, T, AsyncLock>) }
 struct PFut { f: Pin<Box<dyn Future<Output = FOut>>>, flag: Arc<Flag>, waker: Waker, woken: bool, val: Option<u64>, sub: Option<usize> }
 enum GuardK { R(#[allow(dead_code)] ObservableReadGuard<'static, T, AsyncLock>), W(ObservableWriteGuard<'static, T, AsyncLock>) }
 
@@ -517,7 +545,19 @@ impl GW {
         }
     }
     fn complete(&mut self, sink: &mut Sink, text: &str, out: FOut, notify_to: Option<u64>, with_woke: bool) {
+        let out = match out {
+            FOut::Sne(r, v) => {
+                // the comparison and the store are one step: a replaced value differs from the new one, and is the latest one
+                if let Some(o) = r {
+                    if T(o) == T(v) { sink.oracle_fail("C16,C04", &format!("set_if_not_eq({v}) replaced the equal value {o} (and notified)")); }
+                    if o != self.cur { sink.oracle_fail("C16,C04", &format!("set_if_not_eq({v}) returned {o} as the replaced value, the latest value was {}", self.cur)); }
+                } else if T(self.cur) != T(v) { sink.oracle_fail("C16,C04", &format!("set_if_not_eq({v}) did nothing although the latest value {} differs", self.cur)); }
+                FOut::Res(fmt_opt(r))
+            }
+            o => o,
+        };
         match out {
+            FOut::Sne(..) => unreachable!(),
             FOut::Res(r) => {
                 if let Some(v) = notify_to { if r != "none" { self.cur = v; self.mark_fresh(); } }
                 let w = self.woke(); let wf = self.wokef();
@@ -532,7 +572,7 @@ impl GW {
         let ob = self.ob;
         let text = if sne { format!("w 0 sne {v}") } else { format!("w 0 set {v}") };
         let f: Pin<Box<dyn Future<Output = FOut>>> = if sne {
-            Box::pin(async move { FOut::Res(fmt_opt(ob.set_if_not_eq(T(v)).await.map(|t| t.0))) })
+            Box::pin(async move { FOut::Sne(ob.set_if_not_eq(T(v)).await.map(|t| t.0), v) })
         } else {
             Box::pin(async move { FOut::Res(ob.set(T(v)).await.0.to_string()) })
         };
@@ -666,7 +706,7 @@ impl GW {
     fn subscribe(&mut self, sink: &mut Sink, reset: bool) {
         let k = if reset { self.ob.subscribe_reset() } else { now(self.ob.subscribe()).expect("subscribe blocked") };
         let (flag, waker) = flag_waker();
-        self.subs.push(Some(Box::new(SubH { k: SubK::A(k), flag, waker, fresh: reset, parked: false })));
+        self.subs.push(Some(Box::new(SubH { k: SubK::A(k), flag, waker, fresh: reset, parked: false, tparked: false })));
         self.driven.push(None);
         self.unknown.push(false);
         self.lockwait.push(false);
